@@ -29,7 +29,7 @@ ASSUMPTIONS = [
     "the same rule is checked against explicit matrices in C02",
     "float64 tolerance 1e-9 relative to the vector's magnitude",
 ]
-DRAWS = {"quick": 10, "thorough": 120}
+DRAWS = {"quick": 16, "thorough": 600}
 SHARD_TIMEOUT = {"quick": 900, "thorough": 7200}
 
 
